@@ -12,7 +12,7 @@ from gv.model import dbutil
 from gv.model.refdb import RefDB, RefAbort, impl_state
 
 ID = "C10"
-RULE = ("explicit-state BFS over histories (first event: one of two initial databases, with / without an id-less feature) of 22 events {update(7 bundles x strategies), delete (string / Feature / list forms), add_relation "
+RULE = ("explicit-state BFS over histories (first event: one of three initial databases - GFF3 chain with / without an id-less feature, GTF with inference disabled) of 22 GFF3 / 13 GTF events {update(7 bundles x strategies), delete (string / Feature / list forms), add_relation "
         "(plain, with attribute rewrite), reopen} on a file database initialised with a 4-deep GFF3 chain plus an id-less exon; every "
         "reached state is compared with the reference model (features in order, relation triples) through a second read-only connection, "
         "and the .bak file with the pre-operation state; fault runs: for every representative state up to depth 2, four update bundles "
@@ -33,7 +33,13 @@ INIT = [
     "c1\ts\texon\t60\t70\t.\t+\t.\tParent=m1",
 ]
 INIT_B = INIT[:4]      # every feature has an explicit ID: the database starts without any id counter
-INITS = {"I:chain+idless": INIT, "I:chain": INIT_B}
+INIT_GTF = [
+    'c1\ts\texon\t1\t50\t.\t+\t.\tgene_id "G1"; transcript_id "T1";',
+    'c1\ts\texon\t60\t90\t.\t+\t.\tgene_id "G1"; transcript_id "T1";',
+    'c1\ts\tCDS\t5\t40\t.\t+\t0\tgene_id "G1"; transcript_id "T1";',
+]
+INITS = {"I:chain+idless": INIT, "I:chain": INIT_B, "I:gtf": INIT_GTF}
+GTF_KW = dict(disable_infer_genes=True, disable_infer_transcripts=True)
 BUNDLES = {
     "B1": ["c1\ts\tgene\t200\t300\t.\t-\t.\tID=g2", "c1\ts\tmRNA\t200\t300\t.\t-\t.\tID=m2;Parent=g2"],
     "B2": ["c1\ts\texon\t20\t30\t.\t+\t.\tID=e9;Parent=m9", "c1\ts\tmRNA\t1\t90\t.\t+\t.\tID=m9;Parent=g1"],
@@ -42,12 +48,22 @@ BUNDLES = {
     "B5": ["c1\ts\texon\t80\t90\t.\t+\t.\tParent=m1"],
     "B6": ["c1\ts\tpart\t2\t3\t.\t+\t.\tID=p2;Parent=p1"],
     "B7": ["##only a directive", "# and a comment"],
+    # GTF family (database created and updated with inference disabled)
+    "G1": ['c1\ts\texon\t100\t120\t.\t+\t.\tgene_id "G1"; transcript_id "T1";'],
+    "G2": ['c1\ts\texon\t200\t220\t.\t+\t.\tgene_id "G1"; transcript_id "T2";', 'c1\ts\tCDS\t205\t210\t.\t+\t0\tgene_id "G1"; transcript_id "T2";'],
+    "G3": ['c1\ts\ttranscript\t1\t90\t.\t+\t.\tgene_id "G1"; transcript_id "T1"; note "x";'],
+    "G4": ['c1\ts\ttranscript\t1\t95\t.\t+\t.\tgene_id "G1"; transcript_id "T1"; note "y";'],
+    "G5": ['c1\ts\tgene\t1\t300\t.\t+\t.\tgene_id "G1";'],
 }
 UPDATES = [("B1", "merge"), ("B1", "create_unique"), ("B2", "merge"),
            ("B3", "merge"), ("B3", "create_unique"), ("B3", "replace"), ("B3", "warning"),
            ("B4", "merge"), ("B4", "create_unique"), ("B4", "replace"), ("B4", "warning"),
            ("B5", "merge"), ("B6", "merge"), ("B6", "replace"), ("B7", "merge")]
-EVENTS = list(INITS) + ["U:%s:%s" % u for u in UPDATES] + ["D:str:e1", "D:feat:m1", "D:list:p1,exon_1", "D:str:g1", "A:plain", "A:rewrite", "R"]
+GTF_UPDATES = [("G1", "merge"), ("G2", "merge"), ("G3", "merge"), ("G3", "create_unique"), ("G3", "replace"), ("G3", "warning"),
+               ("G4", "merge"), ("G4", "replace"), ("G5", "merge")]
+GTF_EVENTS = ["U:%s:%s" % u for u in GTF_UPDATES] + ["D:str:exon_1", "D:feat:T1", "D:list:CDS_1,exon_2"]
+GFF_EVENTS = ["U:%s:%s" % u for u in UPDATES] + ["D:str:e1", "D:feat:m1", "D:list:p1,exon_1", "D:str:g1", "A:plain", "A:rewrite"]
+EVENTS = list(INITS) + GFF_EVENTS + GTF_EVENTS + ["R"]
 
 
 def depth_of(tier):
@@ -95,7 +111,7 @@ def apply_real(ev, db, path, wdir):
     kind = ev.split(":")
     if kind[0] == "U":
         p = dbutil.write_text(wdir, "bundle.gff", "\n".join(BUNDLES[kind[1]]) + "\n")
-        db.update(p, merge_strategy=kind[2], make_backup=True, verbose=False)
+        db.update(p, merge_strategy=kind[2], make_backup=True, verbose=False, **(GTF_KW if kind[1].startswith("G") else {}))
     elif kind[0] == "D":
         if kind[1] == "str":
             db.delete(kind[2], make_backup=True)
@@ -132,11 +148,15 @@ def run_history(h, wdir, tag="bfs"):
         return dict(status="ok", key="root", violations=[], info=dict(root=True))
     if h[0] not in INITS:
         return dict(status="disabled", key=None, violations=[], info=None)
+    gtf = h[0] == "I:gtf"
+    family = GTF_EVENTS if gtf else GFF_EVENTS
+    if any(ev != "R" and ev not in family for ev in h[1:]):
+        return dict(status="disabled", key=None, violations=[], info=None)
     init, h_full, h = INITS[h[0]], h, h[1:]
     path = os.path.join(wdir, "h.db")
     src = dbutil.write_text(wdir, "init.gff", "\n".join(init) + "\n")
-    db = gffutils.create_db(src, path, verbose=False)
-    model = RefDB()
+    db = gffutils.create_db(src, path, verbose=False, **(GTF_KW if gtf else {}))
+    model = RefDB("gtf" if gtf else "gff3")
     model.update(init)
     fault = tag if isinstance(tag, tuple) and tag[0] == "fault" else None
     viol = []
@@ -182,8 +202,9 @@ def run_history(h, wdir, tag="bfs"):
             bad = [(a, b) for a, b in zip(got["features"], exp["features"]) if a != b][:2]
             viol.append(dict(kind="features-differ-from-model", sig=dict(sig, what=sub), detail=dict(
                 history=list(h), got_ids=gi, expected_ids=ei, first_difference=bad)))
-        if got["relations"] != exp["relations"]:
-            g, e = set(got["relations"]), set(exp["relations"])
+        soft = exp.get("soft", set())
+        if set(got["relations"]) - soft != set(exp["relations"]):
+            g, e = set(got["relations"]) - soft, set(exp["relations"])
             viol.append(dict(kind="relations-differ-from-model",
                              sig=dict(sig, extra=bool(g - e), missing=bool(e - g), levels=",".join(sorted({str(x[2]) for x in g ^ e}))),
                              detail=dict(history=list(h), extra=sorted(g - e), missing=sorted(e - g))))
@@ -218,7 +239,7 @@ def run_fault(h, fault, db, path, wdir):
         os.unlink(path + ".bak")
     raised = None
     try:
-        db.update(source(), merge_strategy="merge", make_backup=True, verbose=False)
+        db.update(source(), merge_strategy="merge", make_backup=True, verbose=False, **(GTF_KW if bundle.startswith("G") else {}))
     except Boom as e:
         raised = "Boom"
     except Exception as e:
@@ -245,7 +266,7 @@ def run(tier, seed):
         items = []
         for d in (1, 2, 3):
             for h in reps.get(d, []):
-                for b in ("B1", "B2", "B3", "B4"):
+                for b in (("G2", "G3") if h and h[0] == "I:gtf" else ("B1", "B2", "B3", "B4")):
                     for k in range(len(BUNDLES[b]) + 1):
                         items.append((("fault", b, k), h))
         return items
